@@ -346,6 +346,7 @@ def run_l1(tag, fam, seed, total, start=0):
                         for k, v in d[key].items():
                             summary[key][k] = summary[key].get(k, 0) + v
                 else:
+                    d['chunk'] = dict(family=job[0], seed=job[1], start=job[2], count=job[3])
                     mismatches.append(d)
             os.remove(outpath)
     return dict(summary=summary, mismatches=mismatches, failed=failed, family=fam, seed=seed, start=start, total=total)
